@@ -171,6 +171,13 @@ def run_world(scn, shutdown_at, seed):
                 self.state += 1
                 self.updated_state()
 
+        class OSlow(resource.Resource):
+            """a handler of the OTHER context that takes its time (one of them is always in progress)"""
+
+            async def render_get(self, request):
+                await asyncio.sleep(0.9)
+                return Message(payload=b"oslow")
+
         tcounter, ocounter = Counter(), Counter()
 
         async def setup():
@@ -182,6 +189,7 @@ def run_world(scn, shutdown_at, seed):
             osite = resource.Site()
             osite.add_resource(["big"], Big())
             osite.add_resource(["counter"], ocounter)
+            osite.add_resource(["oslow"], OSlow())
             # the target context also speaks CoAP over TCP, as a client and as a server
             await tcp_listener.start()
             T = await aiocoap.Context.create_server_context(tsite, bind=(common.SERVER_IP, 5683),
@@ -355,6 +363,16 @@ def run_world(scn, shutdown_at, seed):
         for t in scn.get("changes", []):
             loop.at(t, tcounter.change)
             loop.at(t + 0.0005, ocounter.change)
+        # the other context is a server, too, with work in progress at any instant: an observer of its counter and
+        # a client whose requests to a slow resource overlap (non-confirmable: nothing to acknowledge)
+        oclient = SClient(sim, common.PEER_IPS[3], 5699)
+        oaddr = (OTHER_IP, 5683)
+        loop.at(0.05, lambda: oclient.send(oaddr, msg={"type": rc.NON, "code": rc.GET, "mid": 0x6F00, "token": b"\x6f\x00",
+                                                       "options": [(rc.OBSERVE, b""), (rc.URI_PATH, b"counter")], "payload": b""}))
+        for j in range(13):
+            loop.at(0.3 + 0.65 * j, lambda j=j: oclient.send(oaddr, msg={"type": rc.NON, "code": rc.GET, "mid": 0x6E00 + j,
+                                                                       "token": bytes([0x6E, j]), "options": [(rc.URI_PATH, b"oslow")],
+                                                                       "payload": b""}))
         # a request of the other context well after any shutdown instant
         loop.at(8.0, lambda: otrack.start("o_after", O, Message(code=GET, uri="coap://[%s]/echo?after" % peer2.addr[0])))
 
@@ -449,6 +467,8 @@ def run_world(scn, shutdown_at, seed):
                 tcp_open.append(conn.name)
         result = {"tcp_writes": tcp_writes, "tcp_open": tcp_open, "events": sim.events, "wire": sim.net.wire, "sd": sd, "ttrack": ttrack, "otrack": otrack, "tobs": tobs,
                   "handlers": handlers, "exceptions": sim.loop_exceptions(), "taddr": taddr, "error": error,
+                  "oserved": sorted((e["msg"]["token"].hex(), e["msg"]["code"], e["msg"]["payload"].hex()) for e in sim.net.wire
+                                    if e["src"] == oaddr and e["dst"] == oclient.addr and e["msg"] is not None),
                   "now": loop.now, "digest": sim.digest(), "harness_errors": list(sim.loop.harness_errors)}
         return result
     finally:
@@ -631,6 +651,11 @@ def judge(sim, scn, base, base_exc, res, t_sd, after):
         if not same:
             sim.violation("C18/other-context-affected", dict(ident, request=tag.split("#")[0], baseline=str(brec.get("outcome")),
                                                             got=str(rec.get("outcome")), exc=repr(rec.get("exception"))))
+    if res["oserved"] != base["oserved"]:
+        missing = [x for x in base["oserved"] if x not in res["oserved"]]
+        extra = [x for x in res["oserved"] if x not in base["oserved"]]
+        sim.violation("C18/other-context-affected", dict(ident, as_server=True, missing=missing[:4], extra=extra[:4],
+                                                        n_baseline=len(base["oserved"]), n=len(res["oserved"])))
     return kinds
 
 
